@@ -541,9 +541,18 @@ package ttlv
 //@   ensures r1 == nil ==> len(j.value)+1 == old(len(j.value))
 //@   modifies j.value, j.current
 
+// time.Parse with the RFC 3339 layout accepts years 0000-9999 and zone offsets below 24 h (assumed)
+//@ extern time.Parse
+//@   params layout, value
+//@   results r0, r1
+//@   ensures r1 == nil ==> unix(r0) <= 253402387199
+//@   pure
+
+// an accepted date-time is one the text writers can write back (RFC 3339 ends with year 9999, C18)
 //@ func (*jsonReader).DateTime
 //@   requires j != nil
 //@   ensures r1 == nil ==> len(j.value)+1 == old(len(j.value))
+//@   ensures r1 == nil ==> unix(r0) <= 253402387199
 //@   modifies j.value, j.current
 
 //@ func (*jsonReader).Interval
@@ -656,6 +665,7 @@ package ttlv
 //@ func (*xmlReader).DateTime
 //@   requires dec != nil && dec.r != nil
 //@   ensures r1 == nil ==> xmlAdvanced == 1
+//@   ensures r1 == nil ==> unix(r0) <= 253402387199
 //@   ghostmod xmlAdvanced
 //@   modifies dec.elem
 
